@@ -5,6 +5,7 @@ package main
 import (
 	"os"
 
+	"github.com/gardenbed/emerge/zz_verif/c13"
 	"github.com/gardenbed/emerge/zz_verif/c18"
 	"github.com/gardenbed/emerge/zz_verif/simrt"
 )
@@ -12,6 +13,7 @@ import (
 func main() {
 	fx := os.Getenv("VERIF_FIXTURES")
 	simrt.Main(
+		c13.Engine{FixtureDir: fx},
 		c18.Engine{FixtureDir: fx},
 	)
 }
